@@ -43,6 +43,10 @@ pub struct FRule {
     pub cond: Cond,
     pub set: Option<(u8, i64)>,
     pub activate: Option<u8>,
+    /// Some(0): the rule's first action fails (a Custom action nobody registered a handler for), before any
+    /// other action ran; Some(1): its last action fails, after all the others ran. The execute call returns Err
+    #[serde(default)]
+    pub fail: Option<u8>,
 }
 
 #[derive(Clone, Debug, Serialize, Deserialize, PartialEq)]
@@ -153,12 +157,20 @@ fn eval_cond(c: &Cond, f: &[i64; 3]) -> bool {
 }
 
 fn to_rule(r: &FRule) -> Rule {
-    let mut actions = vec![ActionType::Append { field: "trace".to_string(), value: Value::String(rname(r)) }];
+    let boom = || ActionType::Custom { action_type: "boom".to_string(), params: HashMap::new() };
+    let mut actions = Vec::new();
+    if r.fail == Some(0) {
+        actions.push(boom());
+    }
+    actions.push(ActionType::Append { field: "trace".to_string(), value: Value::String(rname(r)) });
     if let Some((f, v)) = r.set {
         actions.push(ActionType::Set { field: fname(f).to_string(), value: Value::Integer(v) });
     }
     if let Some(g) = r.activate {
         actions.push(ActionType::ActivateAgendaGroup { group: group(g) });
+    }
+    if r.fail.is_some_and(|k| k != 0) {
+        actions.push(boom());
     }
     let mut rule = Rule::new(rname(r), cond_to_group(&r.cond), actions)
         .with_salience(r.salience)
@@ -216,6 +228,8 @@ struct Outcome {
     rules_fired: usize,
     active: String,
     facts: [i64; 3],
+    /// the call returned Err (an action failed); the counters are then unknown and left at 0
+    failed: bool,
 }
 
 impl MState {
@@ -303,6 +317,20 @@ impl MState {
                 if !eval_cond(&r.cond, &self.facts) {
                     continue;
                 }
+                if r.fail == Some(0) {
+                    // the rule's first action fails: nothing of it happened. Whether the rule itself counts as
+                    // fired for no-loop / lock-on-active the property does not say; everything that fired
+                    // BEFORE it in this call certainly did
+                    if ch.choose() {
+                        if r.no_loop {
+                            self.noloop_fired.insert(name.clone());
+                        }
+                        if r.lock_on_active {
+                            self.lock_record.entry(rg).or_default().insert(name.clone());
+                        }
+                    }
+                    return Outcome { rules_fired: 0, fired, cycle_count: 0, active: self.active.clone(), facts: self.facts, failed: true };
+                }
                 fired.push(name.clone());
                 if let Some((f, v)) = r.set {
                     self.facts[f as usize % 3] = v;
@@ -311,6 +339,18 @@ impl MState {
                     let g = group(g);
                     self.wf_queue.push(g.clone());
                     self.set_focus_certain(&g);
+                }
+                if r.fail.is_some() {
+                    // the last action failed, after all the others ran
+                    if ch.choose() {
+                        if r.no_loop {
+                            self.noloop_fired.insert(name.clone());
+                        }
+                        if r.lock_on_active {
+                            self.lock_record.entry(rg).or_default().insert(name.clone());
+                        }
+                    }
+                    return Outcome { rules_fired: 0, fired, cycle_count: 0, active: self.active.clone(), facts: self.facts, failed: true };
                 }
                 any = true;
                 if r.no_loop {
@@ -328,7 +368,7 @@ impl MState {
             }
             self.sync_queue(ch);
         }
-        Outcome { rules_fired: fired.len(), fired, cycle_count, active: self.active.clone(), facts: self.facts }
+        Outcome { rules_fired: fired.len(), fired, cycle_count, active: self.active.clone(), facts: self.facts, failed: false }
     }
     /// client operations other than the execute calls
     fn apply(&mut self, op: &FOp, ch: &mut Chooser) {
@@ -465,6 +505,9 @@ fn classify(obs: &Outcome, pred: &Outcome, pre: &MState, t: i64) -> (&'static st
         }
         return ("gate.completeness", "eligible-rule-did-not-fire");
     }
+    if obs.failed != pred.failed {
+        return ("result.returns", "call-failed-or-succeeded-against-prediction");
+    }
     if obs.cycle_count != pred.cycle_count || obs.rules_fired != pred.rules_fired {
         return ("result.counters", "cycle-or-fired-count-differs");
     }
@@ -536,6 +579,7 @@ impl World for FwdWorld {
                 "probe.rule_re_added_under_old_name",
                 "probe.execute_via_utc_seam",
                 "probe.large_rule_set",
+                "probe.execute_call_failed_in_an_action",
             ],
             quick_runs: 400_000,
             thorough_runs: 12_000_000,
@@ -581,6 +625,7 @@ impl World for FwdWorld {
                 cond: gen_cond(rng, 0),
                 set: if rng.chance(1, 2) { Some((rng.below(3) as u8, rng.range(0, 3))) } else { None },
                 activate: if groups_on && rng.chance(1, 4) { Some(rng.below(3) as u8) } else { None },
+                fail: None,
             }
         };
         // one run in 16: a large, mostly-equal-salience rule set (sorting algorithms switch strategy
@@ -633,6 +678,22 @@ impl World for FwdWorld {
             });
         }
         ops.push(if rng.chance(2, 3) { FOp::ExecAt(rng.below(13) as u8) } else { FOp::Exec });
+        // one run in five: some rules carry an action that fails (first or last in their action list), so that
+        // execute calls return Err in the middle of a pass and the history goes on from there
+        if !large && rng.chance(1, 5) {
+            for r in rules.iter_mut() {
+                if rng.chance(1, 4) {
+                    r.fail = Some(rng.below(2) as u8);
+                }
+            }
+            for o in ops.iter_mut() {
+                if let FOp::AddRule(r) = o {
+                    if rng.chance(1, 4) {
+                        r.fail = Some(rng.below(2) as u8);
+                    }
+                }
+            }
+        }
         FwdTrace {
             hash_seed,
             max_cycles: *rng.pick(&[0usize, 1, 2, 3, 3, 8, 8]),
@@ -774,8 +835,13 @@ impl World for FwdWorld {
                         _ => engine.execute_with_callback(&facts, |name, _f| cb_names.push(name.to_string())),
                     });
                     let reads = clock::shown_list();
-                    let result = match res {
-                        Ok(Ok(r)) => r,
+                    let may_fail = states.iter().any(|s| s.rules.iter().any(|r| r.fail.is_some()));
+                    let result: Option<_> = match res {
+                        Ok(Ok(r)) => Some(r),
+                        Ok(Err(_)) if may_fail => {
+                            obs.count("probe.execute_call_failed_in_an_action");
+                            None
+                        }
                         Ok(Err(e)) => return Err(viol("result.returns", site, "execute-returned-error", format!("execute failed on a typed-core rule set: {e}"), step)),
                         Err(p) => return Err(viol("result.returns", site, "execute-panicked", format!("execute panicked: {}", panic_text(&p)), step)),
                     };
@@ -801,15 +867,19 @@ impl World for FwdWorld {
                         }
                     };
                     let trace = read_trace(&facts);
-                    if matches!(op, FOp::ExecCb) && cb_names != trace {
+                    // (when the call failed in the last action of a rule, that rule's actions ran but whether the
+                    // call-back still hears of it the property does not say)
+                    let cb_ok = cb_names == trace || (result.is_none() && !trace.is_empty() && cb_names[..] == trace[..trace.len() - 1]);
+                    if matches!(op, FOp::ExecCb) && !cb_ok {
                         return Err(viol("order.salience-then-insertion", site, "callback-sequence-differs-from-action-sequence", format!("callback saw {cb_names:?}, actions ran as {trace:?}"), step));
                     }
                     let fvals = match read_facts(&facts) {
                         Some(f) => f,
                         None => return Err(viol("actions.facts", site, "fact-object-damaged", "F.x / F.y / F.z are no longer integers".into(), step)),
                     };
-                    obs.fp_str(&format!("{trace:?}|{}|{}|{fvals:?}", result.cycle_count, result.rules_fired));
-                    let observed = Outcome { fired: trace.clone(), cycle_count: result.cycle_count, rules_fired: result.rules_fired, active: engine.get_active_agenda_group().to_string(), facts: fvals };
+                    let (rc, rf) = result.as_ref().map_or((0, 0), |r| (r.cycle_count, r.rules_fired));
+                    obs.fp_str(&format!("{trace:?}|{rc}|{rf}|{fvals:?}|{}", result.is_none()));
+                    let observed = Outcome { fired: trace.clone(), cycle_count: rc, rules_fired: rf, active: engine.get_active_agenda_group().to_string(), facts: fvals, failed: result.is_none() };
                     // predictions of every state still alive, for every admissible instant
                     let mut all: Vec<(MState, Outcome)> = Vec::new();
                     let before_states = states.len();
@@ -948,6 +1018,7 @@ impl World for FwdWorld {
                     alts.push(b);
                 }
             };
+            push(&|b| b.fail = None);
             push(&|b| b.effective = None);
             push(&|b| b.expires = None);
             push(&|b| b.activate = None);
